@@ -78,6 +78,9 @@ def current_spec(rng, dev, o, kind, strength=None):
     if kind == "decimal":
         pats = {2: [0.1, -0.1], 3: [0.1, 0.2, -0.3], 4: [0.1, 0.2, 0.3, -0.6]}[n]
         return {"kind": "decimal", "values": {nm: p for nm, p in zip(names, pats)}, "decimal_exact": True}
+    if kind == "pulse":
+        pats = {2: [1, -1], 3: [3, -1, -2], 4: [2, 1, -4, 1]}[n]
+        return {"kind": "pulse", "values": {nm: I * p for nm, p in zip(names, pats)}, "t_off": 0.45 * o["solve_time"]}
     if kind == "callable":
         pats = {2: [1, -1], 3: [3, -1, -2], 4: [2, 1, -4, 1]}[n]
         return {"kind": "callable", "values": {nm: I * p for nm, p in zip(names, pats)}, "amp": 0.5, "w": 2 * math.pi / (0.4 * o["solve_time"])}
